@@ -27,7 +27,7 @@ def main(pid, tier, replay_path=None):
     try:
         with vlib.Scratch('fd') as sc:
             binary = vlib.build_harness(sc, '.', instrumented_pool=True)
-            progs = [json.load(open(replay_path))['scenario']] if replay_path else gen(60 if tier == 'quick' else 20000, seed)
+            progs = [json.load(open(replay_path))['scenario']] if replay_path else gen(1200 if tier == 'quick' else 20000, seed)
             res, crashed = conn.run_scenarios(sc, binary, progs, 'f', procs=6, test='TestVerifFdPrograms')
             if crashed:
                 raise vlib.Inconclusive('descriptor lifecycle process died: ' + crashed[0][1][-800:])
